@@ -136,6 +136,12 @@ let run_case (line : string) : string =
       show_res show_vec (bind (gf_frobenius_monomial_base p g) (fun b -> gf_frobenius_map p (poly 2) g b))
   | "ddfz" -> show_res show_factors_nat (gf_ddf_zassenhaus p (poly 2))
   | "edfz" -> show_res (fun (l, _) -> show_list l) (gf_edf_zassenhaus p (poly 4) (natarg 5) (parse_streams t.(3)))
+  | "ddfs" -> show_res show_factors_nat (gf_ddf_shoup p (poly 2))
+  | "edfs" -> show_res (fun (l, _) -> show_list l) (gf_edf_shoup p (poly 4) (natarg 5) (parse_streams t.(3)))
+  | "shoup" -> show_res (fun (l, _) -> show_list l) (gf_shoup p (poly 4) (parse_streams t.(3)))
+  | "tracemap" ->
+      show_res (fun (a, b) -> show_vec a ^ "|" ^ show_vec b)
+        (gf_trace_map p (poly 2) (poly 3) (poly 4) (poly 5) (n_of_string t.(6)))
   | "zass" -> show_res (fun (l, _) -> show_list l) (gf_zassenhaus p (poly 4) (parse_streams t.(3)))
   | "factor" ->
       show_res (fun (lc, l) -> string_of_z lc ^ "|" ^ show_factors_n l) (gf_factor p (poly 4) (parse_streams t.(3)))
